@@ -929,16 +929,27 @@ func litestream.(*Replica).fillFollowGap(r, ctx, f, afterTXID, gapMinTXID, pageS
 
 // The follow loop polls from the last applied TXID and writes the sidecar only for a TXID that a
 // successful poll has applied and made durable; the sidecar sequence is strictly increasing.
+ghost fl_ioErr Bool
+ghost fl_hdr Int
+// The 16-bit page-size field of a SQLite header: a power of two in [512, 32768], or 1 for 65536.
+pred validPageHdr(h int) = h == 1 || h == 512 || h == 1024 || h == 2048 || h == 4096 || h == 8192 || h == 16384 || h == 32768
 func litestream.(*Replica).follow(r, ctx, outputPath, lastTXID, interval) (err)
   requires r != nil && r.Client != nil
   assumes 0 <= lastTXID && lastTXID < 9223372036854775807     // A-txid-range: TXIDs (here: the sidecar value) stay below 2^63-1
-  modifies $heap, $alloc, it_idx, path_synced, path_handle, file_closed, file_written, flock_held, fl_decClosed, fl_cur, txf_dst, txf_renamed
+  modifies $heap, $alloc, it_idx, path_synced, path_handle, file_closed, file_written, flock_held, fl_decClosed, fl_cur, txf_dst, txf_renamed, fl_ioErr, fl_hdr
+  at os.OpenFile#1 reset fl_ioErr = false
   at os.OpenFile#1 assert [C16.open-output] $arg0 == outputPath
+  at os.OpenFile#1 set fl_ioErr = $result1 != nil
+  at os.(*File).ReadAt#1 set fl_ioErr = $result1 != nil
+  at os.(*File).ReadAt#1 set fl_hdr = u8($arg0[0]) * 256 + u8($arg0[1])
+  at litestream.(*Replica).applyNewLTXFiles#1 assert [C16.page-size-decoded] $arg3 == (fl_hdr == 1 ? 65536 : fl_hdr)
+  at litestream.WriteTXIDFile#1 set fl_ioErr = $result0 != nil
+  ensures [C16.follow-accepts-valid-header] err != nil && validPageHdr(fl_hdr) ==> fl_ioErr
   at litestream.(*Replica).applyNewLTXFiles#1 reset fl_cur = lastTXID
   at litestream.(*Replica).applyNewLTXFiles#1 assert [C16.poll-from-last] $arg1 == f && f != nil && $arg2 == lastTXID
   at litestream.WriteTXIDFile#1 reset txf_renamed = false
   at litestream.WriteTXIDFile#1 assert [C16.sidecar-after-apply] $arg0 == outputPath && $arg1 == newTXID && newTXID > lastTXID && fl_cur == newTXID && synced(f)
-  loop 0 invariant r == old(r) && r.Client == old(r.Client) && outputPath == old(outputPath) && f != nil && old(lastTXID) <= lastTXID && lastTXID < 9223372036854775807 && pageSize <= 65536
+  loop 0 invariant r == old(r) && r.Client == old(r.Client) && outputPath == old(outputPath) && f != nil && old(lastTXID) <= lastTXID && lastTXID < 9223372036854775807 && pageSize <= 65536 && !fl_ioErr && pageSize == (fl_hdr == 1 ? 65536 : fl_hdr)
 
 // ---------------------------------------------------------------------------
 // C06: compaction. Ghosts name what Compact asked of the replica.
@@ -1147,17 +1158,24 @@ func litestream.(*DB).SyncAndWait(db, ctx) (err)
 ghost snp_max Int
 ghost snp_commit Int
 ghost snp_pm Int
+// The snapshot's replication time is read from the clock by the encoder itself, i.e. after the position was captured.
+ghost snp_wall Int
+ghost snp_ms Int
 func litestream.(*DB).snapshotReader$1()
   requires db != nil && pos != nil && pm_commitOff == 0 && !pm_lastCommit
   assumes 32 <= pos.walEndOffset && pos.walEndOffset <= 4611686018427387904     // established by snapshotPosition ([C02.snap-end]); A-cursor for the upper bound
   assumes 1 <= pos.pageSize && pos.pageSize <= 65536     // A-pagesize
-  modifies $heap, $alloc, file_closed, pm_commitOff, pm_lastCommit, enc_pages, enc_last, enc_writer, snp_max, snp_commit, snp_pm
+  modifies $heap, $alloc, file_closed, pm_commitOff, pm_lastCommit, enc_pages, enc_last, enc_writer, snp_max, snp_commit, snp_pm, snp_wall, snp_ms
   at litestream.(*WALReader).pageMap#1 assert [C02.snap-bound] $arg1 == pos.walEndOffset - 32 && $arg1 > 0
   at litestream.(*WALReader).pageMap#1 set snp_max = $result1
   at litestream.(*WALReader).pageMap#1 set snp_commit = $result2
   at ltx.(*Encoder).EncodeHeader#1 assert [C02.snap-range] $arg0.MinTXID == 1 && $arg0.MaxTXID == pos.pos.TXID && $arg0.PageSize == pos.pageSize
   at ltx.(*Encoder).EncodeHeader#1 assert [C02.snap-within-bound] maxOffset <= pos.walEndOffset
   at ltx.(*Encoder).EncodeHeader#1 assert [C02.snap-cursor] (maxOffset > 32 ==> $arg0.WALOffset + $arg0.WALSize == maxOffset && $arg0.WALOffset >= 32 && $arg0.WALSize > 0) && (maxOffset <= 32 ==> $arg0.WALOffset == 32 && $arg0.WALSize == 0) && $arg0.WALSalt1 == rd.salt1 && $arg0.WALSalt2 == rd.salt2
+  at time.Now#1 set snp_wall = $result0
+  at time.(Time).UnixMilli#1 assert [C15.snap-stamp-after-capture] $recv == snp_wall
+  at time.(Time).UnixMilli#1 set snp_ms = $result0
+  at ltx.(*Encoder).EncodeHeader#1 assert [C15.snap-stamp] $arg0.Timestamp == snp_ms
   at ltx.(*Encoder).EncodeHeader#1 assert [C02.snap-commit] $arg0.Commit == commit && (walCommit > 0 ==> commit == walCommit)
   at litestream.(*DB).writeLTXFromDB#1 assert [C02.snap-pages] $arg1 == enc && $arg2 == walFile && $arg3 == commit && $arg4 == pageMap
 
